@@ -132,7 +132,9 @@ func Classify(cfg Config, rec []byte) Record {
 		// property only speaks about two *requests* with one id.
 		mixed := false
 		for _, i := range idx {
-			if c := out.Members[i].Class; c == ReplyShaped || c == Neither || out.Members[i].IDUncertain {
+			if c := out.Members[i].Class; c == ReplyShaped || c == Neither || out.Members[i].IDUncertain || out.Members[i].DontCare != "" {
+				// (a member the reference cannot classify for certain - duplicate keys,
+				// exotic strings - may or may not count as a request with this id)
 				mixed = true
 			}
 		}
